@@ -3,6 +3,7 @@
   Property theorems only; helper lemmas live in Kitoken/Proofs/SplitLemmas.lean.
 -/
 import Kitoken.Proofs.SplitLemmas
+import Kitoken.Proofs.Utf8Lemmas2
 namespace Kitoken.C10
 
 open Kitoken Kitoken.Spec
@@ -80,10 +81,32 @@ theorem literal_matches_chain (needle text : Bytes) :
     Chain text.length 0 ((findAll needle text).map fun a => (a, a + needle.length)) :=
   Kitoken.Proofs.Split.findAll_chain needle text
 
-/-- A character pattern and the string pattern with the same text give identical results
-    (holds after the F1 repair; the old 1-byte variant differs, see the example below). -/
-theorem char_eq_string (ext : SplitExt) (c : Char) (text : Bytes) :
-    splitPattern ext text (.char c) = splitPattern ext text (.string (Utf8.encodeChar c)) := rfl
+/-- A character pattern and the string pattern with the same text give identical results on every
+    valid UTF-8 text (holds after the F1 repair; the old 1-byte variant differs, see the example below).
+    The character-boundary filter of string patterns (F15 repair) removes nothing here because matches
+    of a non-empty literal in valid UTF-8 are always aligned. -/
+theorem char_eq_string (ext : SplitExt) (c : Char) (h : List Char) :
+    splitPattern ext (Utf8.encodeChars h) (.char c) =
+      splitPattern ext (Utf8.encodeChars h) (.string (Utf8.encodeChar c)) := by
+  simp only [splitPattern]
+  have hal := Utf8.findAll_aligned [c] h (by simp)
+  simp only [Utf8.encodeChars_singleton] at hal
+  rw [List.filter_eq_self.mpr (fun o ho => (hal o ho).1)]
+
+/-- Every match of a string pattern — including the empty pattern — lies on character boundaries of a
+    valid UTF-8 text (after the F15 repair; before it the empty pattern matched inside characters). -/
+theorem string_matches_aligned (ext : SplitExt) (n h : List Char) (ms : Ranges)
+    (hm : splitPattern ext (Utf8.encodeChars h) (.string (Utf8.encodeChars n)) = some ms) :
+    ∀ r ∈ ms, isBoundary (Utf8.encodeChars h) r.1 = true ∧ isBoundary (Utf8.encodeChars h) r.2 = true := by
+  simp only [splitPattern, Option.some.injEq] at hm
+  subst hm
+  intro r hr
+  simp only [List.mem_map, List.mem_filter] at hr
+  obtain ⟨o, ⟨ho, hb⟩, rfl⟩ := hr
+  refine ⟨hb, ?_⟩
+  by_cases hn : n = []
+  · subst hn; simpa [Utf8.encodeChars] using hb
+  · exact (Utf8.findAll_aligned n h hn o ho).2
 
 /-- Non-vacuity: the old 1-byte character match differs from the repaired one on the 3-byte
     character '▁' (E2 96 81) in "a▁b". -/
